@@ -12,6 +12,7 @@ import (
 // LimbNearMisses(v, m) returns values v' != v below m whose stored representation v'*2^256 mod m differs from that of v
 //   - in exactly one limb j (by +1, by the top bit, by all bits), for every j;
 //   - in two limbs whose differences cancel under addition (+1 in one, -1 in the other),
+//
 // and the same for the canonical (plain integer) representation. Labels say which.
 func LimbNearMisses(v, m *big.Int) []Val {
 	R := new(big.Int).Lsh(big.NewInt(1), 256)
